@@ -212,10 +212,21 @@ def interQueue (nV : Nat) (fwd rev : Nat → Option (Branch α)) : List (Nat × 
         if (rev v).isSome then some (v, (fb.access + fb.traversal) + (rb.access + rb.traversal))
         else none)
 
-/-- the i-th candidate: backtrack both trees from the intersection vertex, re-traverse the reverse
-half forwards from the forward half's last state and edge, concatenate -/
+/-- `route_is_permitted(route, si)`: walking the route in travel order, the frontier model accepts
+every edge given the state and edge of the element before it (the initial state and no edge for the
+first); a refusal or an error of the model (or an unknown edge id) makes the route not permitted -/
+def routePermitted (cf : Config α) : List (Branch α) → List α → Option Nat → Bool
+  | [], _, _ => true
+  | b :: bs, st, prev =>
+    match cf.inst.valid b.edge st prev with
+    | .ok true => routePermitted cf bs b.state (some b.edge)
+    | _ => false
+
+/-- the i-th candidate: backtrack both trees from the intersection vertex (an error of either is
+propagated), re-traverse the reverse half forwards from the forward half's last state and edge —
+when that fails the candidate is DROPPED (`none`) — and concatenate -/
 def svCandidate (cf : Config α) (source target : Nat) (fwd rev : SState α) (v : Nat) :
-    Except ErrKind (List (Branch α)) :=
+    Except ErrKind (Option (List (Branch α))) :=
   match backtrack source v fwd.sol (fwd.solSize + 1) with
   | .error k => .error k
   | .ok fwdRoute =>
@@ -223,12 +234,12 @@ def svCandidate (cf : Config α) (source target : Nat) (fwd rev : SState α) (v 
     | .error k => .error k
     | .ok revBack =>
       match reorient cf fwdRoute revBack with
-      | .error k => .error k
-      | .ok revRoute => .ok (fwdRoute ++ revRoute)
+      | .error _ => .ok none
+      | .ok revRoute => .ok (some (fwdRoute ++ revRoute))
 
 /-- the `loop` of `single_via_paths_algorithm::run`, one turn per replayed pop:
-termination test, empty-queue test, pop, candidate, loop test, similarity tests, accept.
-Returns (solution, ksp_it). -/
+termination test, empty-queue test, pop, candidate (a dropped candidate only counts the turn), loop
+test, frontier validation in travel order, similarity tests, accept.  Returns (solution, ksp_it). -/
 def svLoop (cf : Config α) (sim : List Nat → List Nat → Except ErrKind Bool) (term : KspTerm)
     (k source target : Nat) (fwd rev : SState α) :
     List Nat → List (Nat × α) → List (List (Branch α)) → Nat →
@@ -244,7 +255,10 @@ def svLoop (cf : Config α) (sim : List Nat → List Nat → Except ErrKind Bool
         else
           match svCandidate cf source target fwd rev v with
           | .error e => .error e
-          | .ok this =>
+          | .ok none =>
+            svLoop cf sim term k source target fwd rev rest
+              (queue.filter (fun p => !(p.1 == v))) solution (it + 1)
+          | .ok (some this) =>
             match routeContainsLoop cf this with
             | .error e => .error e
             | .ok hasLoop =>
@@ -253,7 +267,8 @@ def svLoop (cf : Config α) (sim : List Nat → List Nat → Except ErrKind Bool
               | .ok rej =>
                 svLoop cf sim term k source target fwd rev rest
                   (queue.filter (fun p => !(p.1 == v)))
-                  (if !hasLoop && !rej then solution ++ [this] else solution) (it + 1)
+                  (if !hasLoop && routePermitted cf this (initialState cf.feats) none && !rej
+                   then solution ++ [this] else solution) (it + 1)
 
 /-- `single_via_paths_algorithm::run`.  `c` carries the great-circle table towards the target (used
 by the forward run), `gcRev` the one towards the source (reverse run); the direction handed to
@@ -268,7 +283,13 @@ def singleVia (c : Config α) (gcRev : List α) (sim : List Nat → List Nat →
   | .error e => .error e
   | .ok fres =>
     match runVertexOriented cr.inst target (some source) revSched with
-    | .error e => .error e
+    | .error _ =>
+      -- the reverse search failed: no alternatives, the shortest route alone (before the
+      -- tree-count checks); only the backtrack's own error could still be propagated
+      match backtrack source target fres.final.sol (fres.final.solSize + 1) with
+      | .error e => .error e
+      | .ok tsp => .ok { trees := [fres.final.sol], routes := [tsp].take k,
+                         iterations := fres.final.iters }
     | .ok rres =>
       let fwdTrees := [fres.final]
       let revTrees := [rres.final]
